@@ -266,6 +266,22 @@ func (f *Factory) Fresh(base string, s Sort) *T {
 	return f.Var(fmt.Sprintf("%s#%d", base, n), s)
 }
 
+// SnapshotFresh / RestoreFresh save and restore the fresh-name counters.
+func (f *Factory) SnapshotFresh() map[string]int {
+	c := make(map[string]int, len(f.fresh))
+	for k, v := range f.fresh {
+		c[k] = v
+	}
+	return c
+}
+
+func (f *Factory) RestoreFresh(c map[string]int) {
+	f.fresh = make(map[string]int, len(c))
+	for k, v := range c {
+		f.fresh[k] = v
+	}
+}
+
 // ResetFresh restarts fresh-name counters (used when a path is re-executed so
 // that the same names are produced).
 func (f *Factory) ResetFresh() { f.fresh = map[string]int{} }
@@ -789,6 +805,14 @@ func (f *Factory) BV2Int(a *T) *T {
 	return f.intern(&T{Op: OBV2Int, S: Int, A: []*T{a}})
 }
 
+// Int2BV: Int -> bit-vector (mod 2^w).
+func (f *Factory) Int2BV(w int, a *T) *T {
+	if a.IsConst() {
+		return f.BVC(w, uint64(a.I))
+	}
+	return f.intern(&T{Op: OInt2BV, S: BV(w), A: []*T{a}})
+}
+
 // ---- floating point (only what the skip list needs)
 
 func (f *Factory) fbin(op Op, a, b *T) *T {
@@ -927,6 +951,8 @@ func (f *Factory) Head(t *T, ref func(*T) string) string {
 		return fmt.Sprintf("((_ %s %d %d) RNE %s)", fn, e, m, ref(t.A[0]))
 	case OBV2Int:
 		return fmt.Sprintf("(bv2nat %s)", ref(t.A[0]))
+	case OInt2BV:
+		return fmt.Sprintf("((_ int2bv %d) %s)", t.S.W, ref(t.A[0]))
 	}
 	n, ok := opName[t.Op]
 	if !ok {
@@ -1035,6 +1061,8 @@ func (f *Factory) Rebuild(t *T, a []*T) *T {
 		return f.FFromBV(t.S, a[0], false)
 	case OBV2Int:
 		return f.BV2Int(a[0])
+	case OInt2BV:
+		return f.Int2BV(t.S.W, a[0])
 	}
 	panic(fmt.Sprintf("term: rebuild op %d", t.Op))
 }
